@@ -60,6 +60,8 @@ def host(desc):
     """Build host atoms (heavy only unless desc['hydrogens'])."""
     atoms, info = corpus.build_host({
         "x": desc["x"], "pos": desc["pos"],
+        "waters": desc.get("waters", []),
+        "water_h": desc.get("water_h"),
         "hydrogens": desc.get("hydrogens", False),
         "omit": {int(k): set(v) for k, v in desc.get("omit", {}).items()},
     })
@@ -881,6 +883,19 @@ def alias_cases(ffs=("AMBER",), names=None):
                             out.append({"x": x, "pos": pos, "ff": "PARSE",
                                         "opt": opt,
                                         "env": [["alias", canon, alt]]})
+    return out
+
+
+def water_h_cases(ff="AMBER"):
+    """A water that carries only one of its two hydrogens in the input."""
+    out = []
+    for keep in (["H1"], ["H2"]):
+        for x in ("ALA", "SER", "LYS"):
+            for opt in ("default", "noopt", "nodebump_noopt"):
+                for xyz in ([9.0, 9.0, 9.0], [4.5, 6.0, 2.0]):
+                    out.append({"x": x, "pos": "mid", "ff": ff, "opt": opt,
+                                "env": [], "waters": [xyz],
+                                "water_h": keep})
     return out
 
 
